@@ -8,6 +8,12 @@ COMMON_TRUSTED = [
 ]
 
 CONF = {
+    "C13": {
+        "n": {"quick": 800, "thorough": 10000},
+        "shard": 400,
+        "trusted_base": ["text/template + sprig, yaml.v3, encoding/json, magiconair properties, the file system and the process environment are external (Section variables of the model); export/import round trips are tests relative to the bare codec"],
+        "assumptions": ["target paths do not index into an existing non-list node (C03's domain)"],
+    },
     "C14": {
         "n": {"quick": 560, "thorough": 8000},
         "shard": 280,
